@@ -99,3 +99,308 @@ add("C03", "benign-rename-locals", RT,
      ("        diff = create_diff(original_lines, updated_lines)", "        diff = create_diff(original_lines, new_lines)"),
      ("file_context.file_path.write_bytes(\"\".join(updated_lines).encode(\"utf-8\"))", "file_context.file_path.write_bytes(\"\".join(new_lines).encode(\"utf-8\"))")],
     "silent")
+
+# --------------------------------------------------------------------------- C10
+BC = "codemodder/codemods/base_codemod.py"
+FC = "codemodder/file_context.py"
+CM = "codemodder/codemodder.py"
+add("C10", "libcst-parse-outside-try", LT,
+    [("        try:\n            with file_context.timer.measure(\"parse\"):\n                source_tree = cst.parse_module(file_path.read_bytes().decode(\"utf-8\"))\n        except Exception:\n            file_context.add_failure(file_path, reason := \"Failed to parse file\")\n            logger.exception(\"%s %s\", reason, file_path)\n            return None\n",
+      "        with file_context.timer.measure(\"parse\"):\n            source_tree = cst.parse_module(file_path.read_bytes().decode(\"utf-8\"))\n")],
+    "fire", "R-FAIL-ISOLATED", "LibcstTransformerPipeline.apply")
+add("C10", "libcst-handler-narrowed", LT,
+    [("        except Exception:\n            file_context.add_failure(file_path, reason := \"Failed to transform file\")", "        except ValueError:\n            file_context.add_failure(file_path, reason := \"Failed to transform file\")")],
+    "fire", "R-FAIL-ISOLATED", "LibcstTransformerPipeline.apply")
+add("C10", "handler-forgets-add_failure", LT,
+    [("            file_context.add_failure(file_path, reason := \"Failed to parse file\")\n            logger.exception(\"%s %s\", reason, file_path)", "            logger.exception(\"%s %s\", \"Failed to parse file\", file_path)")],
+    "fire", "R-FAIL-ISOLATED", "LibcstTransformerPipeline.apply")
+add("C10", "add_failure-skips-unfixed", FC,
+    [("        self.failures.append(filename)\n        self.add_unfixed_findings(self.get_all_findings(), reason, 0)", "        self.failures.append(filename)\n        if self.line_include:\n            self.add_unfixed_findings(self.get_all_findings(), reason, 0)")],
+    "fire", "R-FAILURE-UNFIXED", "add_failure")
+add("C10", "process_results-skips-failures-when-changed", CTXF,
+    [("            self.add_failures(codemod_id, file_context.failures)", "            if not file_context.changesets:\n                self.add_failures(codemod_id, file_context.failures)")],
+    "fire", "R-FAILURE-UNFIXED", "process_results")
+add("C10", "xml-failure-returns-changeset", XT,
+    [("                logger.exception(\"%s %s\", reason, file_path)\n                return None\n\n            if not changes:", "                logger.exception(\"%s %s\", reason, file_path)\n                return ChangeSet(path=str(file_context.file_path), diff=\"\", changes=[])\n\n            if not changes:")],
+    "fire", "", "XMLTransformerPipeline.apply")
+add("C10", "run-returns-1-on-failures", CM,
+    [("    log_report(\n        context,\n        argv,\n        elapsed_ms,\n        [] if not codemods_to_run else context.files_to_analyze,\n    )\n    return 0", "    log_report(\n        context,\n        argv,\n        elapsed_ms,\n        [] if not codemods_to_run else context.files_to_analyze,\n    )\n    if context.get_failed_files():\n        return 1\n    return 0")],
+    "fire", "R-ZERO-AFTER-REPORT", "run")
+
+# --------------------------------------------------------------------------- C20
+CLI = "codemodder/cli.py"
+CTF = "codemodder/codetf.py"
+add("C20", "report-status-dropped-again", CM,
+    [("        if codetf.write_report(argv.output) == 2:\n            # the report could not be written: exit status 2 (according to spec)\n            return 2\n", "        codetf.write_report(argv.output)\n")],
+    "fire", "R-STATUS-USED", "run")
+add("C20", "duplicate-tool-exits-3", CM,
+    [("    except (DuplicateToolError, FileNotFoundError) as err:\n        logger.error(err)\n        return 1", "    except (DuplicateToolError, FileNotFoundError) as err:\n        logger.error(err)\n        return 3")],
+    "fire", "R-STATUS-MAP", "run")
+add("C20", "cli-error-exits-2", CLI,
+    [("        logger.error(\"CLI error: %s\", message)\n        sys.exit(3)", "        logger.error(\"CLI error: %s\", message)\n        sys.exit(2)")],
+    "fire", "R-STATUS-MAP", "error")
+add("C20", "plain-argparse-parser", CLI,
+    [("    parser = ArgumentParser(description=\"Run codemods and change code.\")", "    parser = argparse.ArgumentParser(description=\"Run codemods and change code.\")")],
+    "fire", "R-STATUS-MAP", "parse_args")
+add("C20", "list-exits-nonzero", CLI,
+    [("            self._print_codemods()\n            parser.exit()", "            self._print_codemods()\n            parser.exit(1)")],
+    "fire", "R-STATUS-MAP", "ListAction")
+add("C20", "missing-dir-exits-2", CM,
+    [("            argv.directory,\n        )\n        return 1", "            argv.directory,\n        )\n        return 2")],
+    "fire", "R-STATUS-MAP", "run")
+add("C20", "benign-status-variable", CM,
+    [("        if codetf.write_report(argv.output) == 2:\n            # the report could not be written: exit status 2 (according to spec)\n            return 2\n", "        report_status = codetf.write_report(argv.output)\n        if report_status != 0:\n            return report_status\n")],
+    "silent")
+
+# --------------------------------------------------------------------------- C12
+RES = "codemodder/result.py"
+SAPI = "core_codemods/sonar/api.py"
+SRES = "core_codemods/sonar/results.py"
+add("C12", "ior-removed", RES,
+    [("    def __ior__(self, other):\n        # dict.__ior__ is a plain update: merge per rule and file instead\n        for k, v in other.items():\n            self[k] = list_dict_or(self.get(k, {}), v)\n        return self\n", "")],
+    "fire", "R-MERGE-OP", "")
+add("C12", "ior-plain-update", RES,
+    [("        for k, v in other.items():\n            self[k] = list_dict_or(self.get(k, {}), v)\n        return self", "        self.update(other)\n        return self")],
+    "fire", "R-MERGE-OP", "")
+add("C12", "partial-lookup-back", RES,
+    [("            result[k] = list_dict_or(self.get(k, {}), other.get(k, {}))", "            result[k] = list_dict_or(self[k], other[k])")],
+    "fire", "R-TOTAL-LOOKUP", "__or__")
+add("C12", "hotspots-precedence-back", SRES,
+    [("(data.get(\"issues\") or []) + (data.get(\"hotspots\") or [])", "data.get(\"issues\") or [] + data.get(\"hotspots\") or []")],
+    "fire", "R-OR-PRECEDENCE", "from_json")
+add("C12", "benign-sonar-keyword-order", SRES,
+    [("            finding_id=finding_id,\n            rule_id=rule_id,\n            locations=locations,\n            codeflows=all_flows,\n", "            rule_id=rule_id,\n            finding_id=finding_id,\n            codeflows=all_flows,\n            locations=locations,\n")],
+    "silent")
+add("C12", "semgrep-location-swapped", "codemodder/semgrep.py",
+    [("            line=sarif_location[\"physicalLocation\"][\"region\"][\"endLine\"],\n            column=sarif_location[\"physicalLocation\"][\"region\"][\"endColumn\"],", "            line=sarif_location[\"physicalLocation\"][\"region\"][\"startLine\"],\n            column=sarif_location[\"physicalLocation\"][\"region\"][\"endColumn\"],")],
+    "fire", "R-READER-SHAPE", "SemgrepLocation")
+add("C12", "defectdojo-drops-finding-id", "core_codemods/defectdojo/results.py",
+    [("            finding_id=result[\"id\"],\n", "")],
+    "fire", "R-READER-SHAPE", "DefectDojoResult")
+add("C12", "add_result-first-location-only", RES,
+    [("        for loc in result.locations:\n            self.setdefault(result.rule_id, {}).setdefault(loc.file, []).append(result)", "        for loc in result.locations:\n            self.setdefault(result.rule_id, {}).setdefault(loc.file, []).append(result)\n            break")],
+    "fire", "R-ADD-ALL-LOCATIONS", "add_result")
+
+# --------------------------------------------------------------------------- C17
+REG = "codemodder/registry.py"
+add("C17", "include-appends-again", REG,
+    [("                matched_codemods.setdefault(name, self._codemods_by_id[name])", "                matched_codemods[name + str(len(matched_codemods))] = self._codemods_by_id[name]")],
+    "fire", "R-SELECT-UNIQUE", "match_codemods")
+add("C17", "wildcard-match-not-full", REG,
+    [("                    code for code in self.codemods if pat.fullmatch(code.id)", "                    code for code in self.codemods if pat.match(code.id)")],
+    "fire", "R-GLOB-ANCHORED", "match_codemods")
+add("C17", "wildcard-unescaped", REG,
+    [("    return re.compile(\".*\".join(re.escape(part) for part in pattern.split(\"*\")))", "    return re.compile(pattern.replace(\"*\", \".*\"))")],
+    "fire", "R-GLOB-ANCHORED", "match_codemods")
+add("C17", "include-sorted", REG,
+    [("        for name in codemod_include:\n            if \"*\" in name:", "        for name in sorted(codemod_include):\n            if \"*\" in name:")],
+    "fire", "R-ORDER-PRESERVED", "match_codemods")
+add("C17", "registry-set-again", REG,
+    [("    for entry_point in dict.fromkeys(entry_points().select(group=\"codemods\")):", "    for entry_point in set(entry_points().select(group=\"codemods\")):")],
+    "fire", "R-REGISTRY-ORDER", "load_registered_codemods")
+add("C17", "compile-results-other-list", CM,
+    [("            context.compile_results(codemods_to_run),", "            context.compile_results(codemod_registry.codemods),")],
+    "fire", "R-ORDER-PRESERVED", "run")
+add("C17", "cli-not-exclusive", CLI,
+    [("    codemod_args_group.add_argument(\n        \"--codemod-include\",", "    parser.add_argument(\n        \"--codemod-include\",")],
+    "fire", "R-CLI-EXCLUSIVE", "parse_args")
+add("C17", "benign-fnmatch", REG,
+    [("                pat = _wildcard_to_regex(name)\n                pattern_matches = [\n                    code for code in self.codemods if pat.fullmatch(code.id)\n                ]", "                pattern_matches = [\n                    code for code in self.codemods if fnmatch.fnmatchcase(code.id, name)\n                ]"),
+     ("import os\nimport re\n", "import fnmatch\nimport os\nimport re\n")],
+    "silent")
+
+# --------------------------------------------------------------------------- C19
+add("C19", "regex-finding-line-off", RT,
+    [("                        findings=file_context.get_findings_for_location(lineno + 1),\n                    )\n                )\n        return changes, updated_lines\n\n    def apply(", "                        findings=file_context.get_findings_for_location(lineno),\n                    )\n                )\n        return changes, updated_lines\n\n    def apply(")],
+    "fire", "R-LINE-INDEX-AGREE", "RegexTransformerPipeline._apply")
+add("C19", "sast-regex-drops-unchanged-line", RT,
+    [("                if line == changed_line:\n                    logger.warn(\"Unable to update html line: %s\", line)", "                if line == changed_line:\n                    updated_lines.pop()\n                    logger.warn(\"Unable to update html line: %s\", line)")],
+    "fire", "R-ONE-APPEND-PER-LINE", "SastRegexTransformerPipeline._apply")
+add("C19", "sast-regex-double-append", RT,
+    [("            else:\n                updated_lines.append(line)\n        return changes, updated_lines", "            else:\n                updated_lines.append(line)\n            if not line.endswith(\"\\n\"):\n                updated_lines.append(\"\\n\")\n        return changes, updated_lines")],
+    "fire", "R-ONE-APPEND-PER-LINE", "SastRegexTransformerPipeline._apply")
+add("C19", "sast-regex-ungated", RT,
+    [("            if self.line_matches_result(one_idx_lineno := lineno + 1, result_linenums):", "            if self.line_matches_result(one_idx_lineno := lineno + 1, result_linenums) or True:")],
+    "fire", "R-ONE-APPEND-PER-LINE", "SastRegexTransformerPipeline._apply")
+add("C19", "cdata-flag-never-cleared", XT,
+    [("    def endCDATA(self):\n        self._in_cdata = False\n", "    def endCDATA(self):\n")],
+    "fire", "R-CDATA-STATE", "characters")
+add("C19", "dtd-none-again", XT,
+    [("        if public_id is not None and system_id is not None:\n            external_id = f' PUBLIC \"{public_id}\" \"{system_id}\"'\n        elif system_id is not None:\n            external_id = f' SYSTEM \"{system_id}\"'\n        else:\n            external_id = \"\"\n        self._write(f\"<!DOCTYPE {name}{external_id}>\\n\")  # type: ignore",
+      "        self._write(f'<!DOCTYPE {name} PUBLIC \"{public_id}\" \"{system_id}\">\\n')  # type: ignore")],
+    "fire", "R-OPTIONAL-FORMAT", "startDTD")
+add("C19", "xml-dry-run-guard-removed", XT,
+    [("            if not context.dry_run:\n                file_context.file_path.write_bytes(\"\".join(new_lines).encode(\"utf-8\"))", "            file_context.file_path.write_bytes(\"\".join(new_lines).encode(\"utf-8\"))")],
+    "fire", "", "XMLTransformerPipeline.apply")
+
+# --------------------------------------------------------------------------- C05
+CD = "codemodder/code_directory.py"
+BP = "codemodder/project_analysis/file_parsers/base_parser.py"
+add("C05", "find-and-fix-returns-all-files", BC,
+    [("                for path in context.find_and_fix_paths\n                if path.suffix in self.default_extensions", "                for path in context.files_to_analyze\n                if path.suffix in self.default_extensions")],
+    "fire", "R-FILESET-SOURCE", "FindAndFixCodemod.get_files_to_analyze")
+add("C05", "remediation-skips-filter_paths", BC,
+    [("        return context.filter_paths(\n            [", "        return list(\n            ["),],
+    "fire", "R-FILESET-SOURCE", "RemediationCodemod.get_files_to_analyze")
+add("C05", "context-swaps-include-exclude", CTXF,
+    [("            self.path_exclude or None,\n            self.path_include or None,", "            self.path_include or None,\n            self.path_exclude or None,")],
+    "fire", "", "find_and_fix_paths")
+add("C05", "writer-path-from-parent-dir", BDW,
+    [("        self.path = Path(dependency_store.file)", "        self.path = Path(parent_directory) / Path(dependency_store.file).name")],
+    "fire", "R-WRITE-TARGET", "DependencyWriter.__init__")
+add("C05", "libcst-writes-result-location", LT,
+    [("                update_code(file_context.file_path, tree.code)", "                update_code(results[0].locations[0].file if results else file_context.file_path, tree.code)")],
+    "fire", "R-WRITE-TARGET", "LibcstTransformerPipeline.apply")
+add("C05", "manifest-symlink-filter-removed", BP,
+    [("            if not path.is_symlink()\n", "")],
+    "fire", "R-ENUM-SIBLINGS", "find_file_locations")
+add("C05", "files-symlink-filter-removed", CD,
+    [("        if Path(path).is_file() and not Path(path).is_symlink()", "        if Path(path).is_file()")],
+    "fire", "R-ENUM-SIBLINGS", "files_for_directory")
+add("C05", "line-exclude-excludes-file", CD,
+    [("        else [x for x in (patterns or []) if \":\" not in x]", "        else [x.split(\":\")[0] for x in (patterns or [])]")],
+    "fire", "R-LINE-SUFFIX", "filter_files")
+add("C05", "benign-fileset-local", BC,
+    [("        del results\n        return (\n            [\n                path\n                for path in context.find_and_fix_paths\n                if path.suffix in self.default_extensions\n            ]\n            if self.default_extensions\n            else context.find_and_fix_paths\n        )",
+      "        del results\n        candidates = context.find_and_fix_paths\n        if not self.default_extensions:\n            return candidates\n        return [path for path in candidates if path.suffix in self.default_extensions]")],
+    "silent")
+
+# --------------------------------------------------------------------------- C09
+add("C09", "class-level-container-not-rebound", CTXF,
+    [("        self._failures_by_codemod = {}\n", "")],
+    "fire", "R-STATE-KEYED", "_failures_by_codemod")
+add("C09", "failures-keyed-by-constant", CTXF,
+    [("        self._failures_by_codemod.setdefault(codemod_name, []).extend(failed_files)", "        self._failures_by_codemod.setdefault(\"all\", []).extend(failed_files)")],
+    "fire", "R-STATE-KEYED", "add_failures")
+add("C09", "deps-before-apply", CM,
+    [("        codemod.apply(context)\n        record_dependency_update(context.process_dependencies(codemod.id))", "        record_dependency_update(context.process_dependencies(codemod.id))\n        codemod.apply(context)")],
+    "fire", "R-SEQUENTIAL", "apply_codemods")
+add("C09", "pool-stored-on-context", BC,
+    [("        with ThreadPoolExecutor() as executor:\n            logger.debug(\"using executor with %s workers\", context.max_workers)\n            contexts = executor.map(process_file, files_to_analyze)\n            executor.shutdown(wait=True)\n\n        context.process_results(self.id, contexts)",
+      "        executor = ThreadPoolExecutor()\n        contexts = executor.map(process_file, files_to_analyze)\n        context.process_results(self.id, contexts)")],
+    "fire", "R-SEQUENTIAL", "_apply")
+add("C09", "filecontext-shared-default", FC,
+    [("    codemod_changes: list[Change] = field(default_factory=list)", "    codemod_changes: list[Change] = []")],
+    "fire", "R-FRESH-FILECONTEXT", "codemod_changes")
+add("C09", "filecontext-cached-on-self", BC,
+    [("        file_context = FileContext(\n            context.directory,\n            filename,\n            line_exclude,\n            line_include,\n            findings_for_rule,\n        )",
+      "        file_context = FileContext(\n            context.directory,\n            filename,\n            line_exclude,\n            line_include,\n            findings_for_rule,\n        )\n        self._last_context = file_context")],
+    "fire", "R-FRESH-FILECONTEXT", "_process_file")
+add("C09", "process_results-wrong-id", BC,
+    [("        context.process_results(self.id, contexts)", "        context.process_results(self.name, contexts)")],
+    "fire", "R-STATE-KEYED", "_apply")
+
+# --------------------------------------------------------------------------- C11
+add("C11", "as-completed-merge", BC,
+    [("            contexts = executor.map(process_file, files_to_analyze)\n            executor.shutdown(wait=True)", "            futures = [executor.submit(process_file, f) for f in files_to_analyze]\n            contexts = [f.result() for f in as_completed(futures)]"),
+     ("from concurrent.futures import ThreadPoolExecutor", "from concurrent.futures import ThreadPoolExecutor, as_completed")],
+    "fire", "R-ORDERED-MERGE", "_apply")
+add("C11", "match_files-unsorted", CD,
+    [("        parent_path.joinpath(p) for p in sorted(list(included_files - excluded_files))", "        parent_path.joinpath(p) for p in list(included_files - excluded_files)")],
+    "fire", "", "match_files")
+add("C11", "worker-mutates-context", BC,
+    [("        if change_set := self.transformer.apply(\n            context, file_context, findings_for_rule\n        ):\n            file_context.add_changeset(change_set)", "        if change_set := self.transformer.apply(\n            context, file_context, findings_for_rule\n        ):\n            file_context.add_changeset(change_set)\n            context.add_changesets(self.id, [change_set])")],
+    "fire", "R-WORKER-ISOLATION", "")
+add("C11", "pipeline-uses-context-timer", LT,
+    [("            with file_context.timer.measure(\"parse\"):", "            with context.timer.measure(\"parse\"):")],
+    "fire", "R-WORKER-ISOLATION", "LibcstTransformerPipeline.apply")
+add("C11", "manifests-unsorted-again", BP,
+    [("        return sorted(\n            path\n            for path in Path(self.parent_directory).rglob(self.file_type.value)\n            if not path.is_symlink()\n        )", "        return [\n            path\n            for path in Path(self.parent_directory).rglob(self.file_type.value)\n            if not path.is_symlink()\n        ]")],
+    "fire", "R-NO-UNORDERED-ITER", "find_file_locations")
+add("C11", "context-drops-max-workers", CTXF,
+    [("        self.max_workers = max_workers\n", "")],
+    "fire", "R-MAX-WORKERS", "__init__")
+add("C11", "second-dependency", "core_codemods/process_creation_sandbox.py",
+    [("        self.add_dependency(Security)", "        self.add_dependency(Security)\n        self.add_dependency(DefusedXML)")],
+    "fire", "R-NO-UNORDERED-ITER", "ProcessSandbox")
+
+# --------------------------------------------------------------------------- C14
+add("C14", "no-break-after-write", CTXF,
+    [("                for dep in dependencies:\n                    record[dep] = package_store\n                break\n", "                for dep in dependencies:\n                    record[dep] = package_store\n")],
+    "fire", "R-FIRST-WINS", "process_dependencies")
+add("C14", "add-skips-has_requirement", BDW,
+    [("            if not self.dependency_store.has_requirement(requirement):\n                self.dependency_store.dependencies.add(requirement)\n                new.append(new_dep)", "            self.dependency_store.dependencies.add(requirement)\n            new.append(new_dep)")],
+    "fire", "R-FILTERED-ADD", "add")
+add("C14", "add-does-not-register", BDW,
+    [("                self.dependency_store.dependencies.add(requirement)\n", "")],
+    "fire", "R-FILTERED-ADD", "add")
+add("C14", "write-passes-all-deps", BDW,
+    [("            return self.add_to_file(new_dependencies, dry_run)", "            return self.add_to_file(dependencies, dry_run)")],
+    "fire", "R-FILTERED-ADD", "write")
+add("C14", "failed-notice-dropped", CTXF,
+    [("            else:\n                description += build_failed_dependency_notification(dependencies[0])\n", "")],
+    "fire", "R-FAILED-NOTICE", "add_description")
+
+# --------------------------------------------------------------------------- C15
+add("C15", "compile-skips-unchanged-codemods", CTXF,
+    [("            results.append(result)\n\n        return results", "            if changesets:\n                results.append(result)\n\n        return results")],
+    "fire", "R-ONE-RESULT-PER-CODEMOD", "compile_results")
+add("C15", "result-summary-from-description", CTXF,
+    [("                summary=codemod.summary,", "                summary=codemod.description,")],
+    "fire", "R-RESULT-FIELDS", "compile_results")
+add("C15", "failed-files-of-all-codemods", CTXF,
+    [("                failedFiles=[str(file) for file in self.get_failures(codemod.id)],", "                failedFiles=[str(file) for file in self.get_failed_files()],")],
+    "fire", "R-RESULT-FIELDS", "compile_results")
+add("C15", "absolute-changeset-path", RT,
+    [("            path=str(file_context.file_path.relative_to(context.directory)),\n            diff=diff,\n            changes=changes,", "            path=str(file_context.file_path),\n            diff=diff,\n            changes=changes,")],
+    "fire", "R-RELATIVE-PATH", "RegexTransformerPipeline.apply")
+add("C15", "regex-no-changes-check-removed", RT,
+    [("        if not changes:\n            logger.debug(\"No changes produced for %s\", file_context.file_path)\n            return None\n", "")],
+    "fire", "R-NONEMPTY-CHANGES", "RegexTransformerPipeline.apply")
+add("C15", "empty-change-description", "core_codemods/use_set_literal.py",
+    [("    change_description = \"Replace sets from lists with set literals\"", "    change_description = \"\"")],
+    "fire", "R-DESCRIPTION-NONEMPTY", "UseSetLiteral")
+add("C15", "empty-default-description-on_result_found", "core_codemods/requests_verify.py",
+    [("    change_description = (\n        \"Ensures requests using the `requests` or `httpx` library use `verify=True`.\"\n    )", "    change_description = \"\"")],
+    "fire", "R-DESCRIPTION-NONEMPTY", "RequestsVerify")
+add("C06", "sonar-codemod-wrong-requested-rule", "core_codemods/sonar/api.py",
+    [("            requested_rules=[rule_id],", "            requested_rules=[rule_name],")],
+    "fire", "R-REQUESTED-RULES", "from_core_codemod")
+
+# --------------------------------------------------------------------------- C06
+add("C06", "numpy-nan-gate-removed", "core_codemods/numpy_nan_equality.py",
+    [("        if self.node_is_selected(original_node):\n            match original_node:", "        if True:\n            match original_node:")],
+    "fire", "R-GATE-RESULT", "NumpyNanEqualityTransformer")
+add("C06", "fix-assert-tuple-line-gate-only", "core_codemods/fix_assert_tuple.py",
+    [("                    if not self.node_is_selected(assert_test):", "                    if not self.filter_by_path_includes_or_excludes(self.node_position(assert_test)):")],
+    "fire", "R-GATE-RESULT", "FixAssertTuple")
+add("C06", "imported-call-modifier-gate-dropped", "codemodder/codemods/imported_call_modifier.py",
+    [("        if self.node_is_selected(\n            original_node\n        ) and self.filter_by_path_includes_or_excludes(pos_to_match):", "        if self.filter_by_path_includes_or_excludes(pos_to_match):"),
+     ],
+    "fire", "R-GATE-RESULT", "")
+add("C06", "process-file-all-rules", BC,
+    [("                    results.results_for_rule_and_file(context, rule, filename)", "                    [r for rs in results.values() for r in rs.get(filename, [])]")],
+    "fire", "R-RULE-KEYED", "_process_file")
+add("C06", "no-short-circuit", BC,
+    [("        if results is not None and not findings_for_rule:\n            logger.debug(\"no findings for %s, short-circuiting analysis\", filename)\n            return file_context\n", "")],
+    "fire", "R-RULE-KEYED", "_process_file")
+add("C06", "change-findings-other-line", LT,
+    [("                findings=findings\n                or self.file_context.get_findings_for_location(line_number),", "                findings=findings\n                or self.file_context.get_findings_for_location(line_number - 1),")],
+    "fire", "R-CHANGE-FINDINGS", "report_change_for_line")
+add("C06", "benign-early-return-gate", "core_codemods/numpy_nan_equality.py",
+    [("        if self.node_is_selected(original_node):\n            match original_node:", "        if not self.node_is_selected(original_node):\n            return updated_node\n        if True:\n            match original_node:")],
+    "silent")
+
+# --------------------------------------------------------------------------- C13
+add("C13", "use-set-literal-gate-removed", "core_codemods/use_set_literal.py",
+    [("        if not self.filter_by_path_includes_or_excludes(\n            self.node_position(original_node)\n        ):\n            return updated_node\n\n        match original_node.func:\n            case cst.Name(\"set\"):", "        match original_node.func:\n            case cst.Name(\"set\"):")],
+    "fire", "R-GATE-LINE", "UseSetLiteral")
+add("C13", "filter-copy-diverges", "core_codemods/remove_unused_imports.py",
+    [("        if self.line_exclude:\n            return not any(match_line(pos_to_match, line) for line in self.line_exclude)\n        if self.line_include:", "        if self.line_include:\n            return any(match_line(pos_to_match, line) for line in self.line_include)\n        if self.line_exclude:\n            return not any(match_line(pos_to_match, line) for line in self.line_exclude)\n        if self.line_include:")],
+    "fire", "R-FILTER-SIBLING", "remove_unused_imports")
+add("C13", "flask-send-file-node-again", "core_codemods/replace_flask_send_file.py",
+    [("        if self.filter_by_path_includes_or_excludes(\n            self.node_position(original_node)\n        ):", "        if self.filter_by_path_includes_or_excludes(original_node):")],
+    "fire", "R-GATE-ARG-TYPE", "ReplaceFlaskSendFile")
+add("C13", "line-patterns-absolute-only", BC,
+    [("        line_exclude = file_line_patterns(\n            filename, context.path_exclude, context.directory\n        )", "        line_exclude = file_line_patterns(filename, context.path_exclude)")],
+    "fire", "R-PATTERN-BASE-SIBLING", "_process_file")
+add("C13", "filecontext-args-swapped", BC,
+    [("            filename,\n            line_exclude,\n            line_include,\n            findings_for_rule,", "            filename,\n            line_include,\n            line_exclude,\n            findings_for_rule,")],
+    "fire", "R-LINE-ARGS", "_process_file")
+add("C13", "report-change-updated-node", "core_codemods/fix_assert_tuple.py",
+    [("        start_line = self.node_position(original_node).start.line\n        for idx in range(newlines_count):", "        start_line = self.node_position(original_node).start.line\n        for idx in range(newlines_count):"),
+     ("                    self._report_new_lines(original_node, len(new_asserts))", "                    self._report_new_lines(original_node, len(new_asserts))\n                    self.lineno_for_node(updated_node)")],
+    "fire", "R-ORIGINAL-NODE-POSITION", "FixAssertTuple")
+add("C13", "match_line-start-only", "codemodder/codemods/base_visitor.py",
+    [("    return pos.start.line == line and pos.end.line == line", "    return pos.start.line == line")],
+    "fire", "R-FILTER-SIBLING", "match_line")
